@@ -24,20 +24,21 @@ type Obligation struct {
 }
 
 type Check struct {
-	failMemo  map[*Func][]Fact
-	typesMemo map[string]*Func
-	P         *Prog
-	Prop      string
-	Tier      string
-	Obls      []*Obligation
-	Notes     []string
-	Sites     int // sites examined (evaluations)
-	start     time.Time
-	info      map[string]interface{}
-	assum     map[string]bool
-	fu        *feeUnits
-	msOnly    string // moduleServicePath decides only the named part ("super", "state")
-	cw        []*ctxWrite
+	failMemo     map[*Func][]Fact
+	typesMemo    map[string]*Func
+	P            *Prog
+	Prop         string
+	Tier         string
+	Obls         []*Obligation
+	Notes        []string
+	Sites        int // sites examined (evaluations)
+	start        time.Time
+	info         map[string]interface{}
+	assum        map[string]bool
+	fu           *feeUnits
+	grpcQueryFns []*Func
+	msOnly       string // moduleServicePath decides only the named part ("super", "state")
+	cw           []*ctxWrite
 }
 
 func (c *Check) pos(p token.Pos) string { return c.P.pos(p) }
